@@ -188,3 +188,37 @@ def host_history(rng):
     steps.append(("exec", r.below(nkeep)))
     steps.append(("snip", PROBE))
     return steps, MODS
+
+
+def history2(rng):
+    """more histories: a snippet that dies inside try / finally (no catch) after a closure captured the first local of
+    the try block; imports that fail (missing, uncompilable, throwing) followed by reset() and a re-import of the same
+    path, compared with what a new interpreter does; globals defined by the failing snippet before it failed"""
+    r = rng
+    steps = []
+    tried = []
+    for k in range(r.range(3, 9)):
+        c = r.below(100)
+        if c < 30:
+            fail = r.choice(["throw \"boom\";", "nil + 1;", "[].pop();", "deep%d(2);" % k])
+            steps.append(("snip", "var get%d = nil; var set%d = nil;\nfn deep%d(n) { if n == 0 { throw \"deep\"; } return deep%d(n - 1); }\n"
+                                  "fn run%d() {\n    try {\n        var first = 41;\n        var second = \"total\";\n        get%d = || [first, second];\n"
+                                  "        set%d = |v| { first = v; return first; };\n        %s\n        print(\"not reached\");\n    } finally {\n        print(\"cleanup %d\");\n    }\n}\nrun%d();\n"
+                          % (k, k, k, k, k, k, k, fail, k, k)))
+            steps.append(("snip", "print(get%d());\nprint(set%d(42));\nprint(get%d());\n" % (k, k, k)))
+        elif c < 60:
+            mod = r.choice(["throws", "broken", "missing", "good", "needs_good"])
+            tried.append(mod)
+            steps.append(("snip", "import \"%s\" as im%d;\nprint(im%d);\n" % (mod, k, k)))
+        elif c < 80 and tried:
+            steps.append(("reset",))
+            for mod in r.sample(tried, min(len(tried), 3)):
+                steps.append(("snip", "try { import \"%s\" as again; print(again); } catch e { print(type(e)); print(e.context); }\n" % mod))
+            tried = []
+        elif c < 90 and tried:
+            mod = r.choice(tried)
+            steps.append(("snip", "try { import \"%s\" as again%d; print(again%d); } catch e { print(type(e)); print(e.context); }\n" % (mod, k, k)))
+        else:
+            steps.append(("snip", PROBE))
+    steps.append(("snip", PROBE))
+    return steps, MODS
